@@ -14,7 +14,7 @@ demo() { PYTHONPATH="$wt" /venv/bin/python -m pytest -q -p no:cacheprovider -x "
 echo "== demo WITH patch" >> "$log"; demo; with=$?
 if [ -z "$SKIP_STABLE" ]; then
 echo "== stable tests WITH patch" >> "$log"
-PYTHONPATH="$wt" /venv/bin/python -m pytest -q -p no:cacheprovider --timeout=900 tests/test_binding_filter.py tests/test_cwl_loop.py tests/test_recovery.py tests/test_recovery_utils.py tests/test_schema.py tests/test_scheduler.py::test_hardware tests/test_connector.py::test_command_template "tests/test_translator.py::test_recursive_deployments" tests/test_translator.py::test_workdir_inheritance tests/test_translator.py::test_dot_product_transformer_raises_error 2>&1 | tail -3 >> "$log"
+PYTHONPATH="$wt" timeout -s KILL 1200 /venv/bin/python -m pytest -q -p no:cacheprovider --timeout=900 tests/test_binding_filter.py tests/test_cwl_loop.py tests/test_recovery.py tests/test_recovery_utils.py tests/test_schema.py tests/test_scheduler.py::test_hardware tests/test_connector.py::test_command_template "tests/test_translator.py::test_recursive_deployments" tests/test_translator.py::test_workdir_inheritance tests/test_translator.py::test_dot_product_transformer_raises_error 2>&1 | tail -3 >> "$log"
 fi
 stable=$(grep -E "[0-9]+ passed" "$log" | tail -1)
 for c in "$@"; do
